@@ -86,6 +86,8 @@ class Sched:
         self.interrupted_at = None
         self.uncaught = []
         self.symmetry = True
+        self.main_reacted = False  # main performed its first Thread.join after the interrupt
+        self.main_starved = False  # some other thread was chosen while main was enabled, between interrupt and reaction
 
     # -- thread management -------------------------------------------------
     def me(self):
@@ -175,10 +177,8 @@ class Sched:
         if ip is not None and self.interrupted_at is None:
             m = self.main
             if not m.finished and (self._enabled(m) or m.interruptible) and ip(self):
-                c = {"interrupt": 1}
-                if m is not me:
-                    c.update(pre)
-                opts.append(("int", m, c))
+                # the signal makes the calling thread run: covered by the interrupt budget alone
+                opts.append(("int", m, {"interrupt": 1}))
         return opts
 
     def _reschedule(self, me):
@@ -203,6 +203,10 @@ class Sched:
             t.wake = "interrupt"
             self.interrupted_at = len(self.events)
             self.events.append(("INTERRUPT", me.name, t.at))
+        if self.interrupted_at is not None and not self.main_reacted and kind != "int":
+            m = self.main
+            if t is not m and not m.finished and (m is me and not me.finished and self._enabled(m) or m is not me and self._enabled(m)):
+                self.main_starved = True
         self.current = t
         if t is not me:
             t.sem.release()
@@ -592,6 +596,8 @@ class Thread:
         if ts is None:
             raise RuntimeError("cannot join thread before it is started")
         s.log("JOIN_BEGIN", ts.name)
+        if s.interrupted_at is not None and s.me() is s.main:
+            s.main_reacted = True
         ts.joiners += 1
         try:
             r = s.point(
